@@ -2,16 +2,26 @@
 (* Definitions shared by the C02 specifications (no constants, no variables).            *)
 (*                                                                                       *)
 (* Language.  prop    : <<"at",n>> (variable n) | <<"sv",n>> (schematic n) | <<"imp",p,q>> *)
+(*                      | <<"eq",p,q>> (equality of propositions)                          *)
 (*                      | <<"other",s>> (anything else the code may produce)              *)
 (*            sequent : [h |-> set of props, c |-> prop];  "absent" = NoneS               *)
-(*            item    : [id, rule, arg, prevs, th, sub]  (id, prevs[k] : tuples of ints)  *)
+(*            item    : [id, rule, ak, arg, at, prevs, th, sub, alias]                     *)
+(*                      id, prevs[k] : tuples of ints;                                     *)
+(*                      ak : KIND of the argument object handed to the rule -- "none",     *)
+(*                      "term" (arg), "thm" (at: a made-up, unverified sequent), "type",   *)
+(*                      "inst" (empty instantiation), "tyinst", "tuple", "name" (arg);     *)
+(*                      alias : position of the item whose OBJECT this one is (<<>> = its  *)
+(*                      own object): the same ProofItem may sit at several positions       *)
 (*            position: tuple of 0-based indices (where the item really is)               *)
 (*                                                                                       *)
 (* RefCheck is the INTENDED meaning of check_proof and is deliberately blind to           *)
 (* identifiers and to the *names* in citation lists: an item with k citations is          *)
 (* justified iff SOME k sequents verified earlier and visible from its position make its  *)
 (* rule yield a sequent that can_prove the stated one.  It is therefore never stricter    *)
-(* than the property ("whatever identifiers the steps carry").                            *)
+(* than the property ("whatever identifiers the steps carry").  Every POSITION is a step   *)
+(* of its own (object sharing between positions is invisible to it), and an argument that  *)
+(* is not of the kind the rule's signature (kernel/thm.py primitive_deriv) asks for         *)
+(* justifies nothing: only cited, verified steps are premises.                             *)
 EXTENDS Integers, Sequences, FiniteSets, TLC
 
 atA == <<"at", "A">>
@@ -21,6 +31,8 @@ svB == <<"sv", "B">>
 NoneP == <<"none">>
 Imp(p, q) == <<"imp", p, q>>
 IsImp(p) == p[1] = "imp"
+Eq(p, q) == <<"eq", p, q>>
+IsEq(p) == p[1] = "eq"
 Sq(H, c) == [h |-> H, c |-> c]
 NoneS == Sq({}, NoneP)
 IsNone(s) == s.c = NoneP
@@ -31,19 +43,45 @@ ThmName(arg) == arg[2]
 \* ------------------------------------------------------------------ semantics (for RefSound)
 AtomsU == {atA, atB, svA, svB}
 RECURSIVE Eval(_, _)
-Eval(p, v) == IF IsImp(p) THEN (Eval(p[2], v) => Eval(p[3], v)) ELSE v[p]
+Eval(p, v) == IF IsImp(p) THEN (Eval(p[2], v) => Eval(p[3], v))
+              ELSE IF IsEq(p) THEN (Eval(p[2], v) <=> Eval(p[3], v)) ELSE v[p]
 Valid(s) == \A v \in [AtomsU -> BOOLEAN] : (\A x \in s.h : Eval(x, v)) => Eval(s.c, v)
 
 \* ------------------------------------------------------------------ rules
-\* the set of possible results (empty = the rule does not apply)
+\* kind of argument each rule takes (kernel/thm.py primitive_deriv; `theorem` takes a name, the gap macro a term)
+Sig(rule) == CASE rule \in {"assume", "implies_intr", "reflexive", "beta_conv", "abstraction", "forall_intr", "forall_elim", "verif_gap1"} -> "term"
+               [] rule = "substitution" -> "inst"
+               [] rule = "subst_type" -> "tyinst"
+               [] rule = "theorem" -> "name"
+               [] OTHER -> "none"
+\* primitive rules whose results are outside the small language: when argument kind and number of premises fit,
+\* the oracle does not decide (the object is not examined); when they do not fit, nothing is justified
+Unmodelled == {"combination", "beta_conv", "abstraction", "forall_intr", "forall_elim"}
+PremCount(rule) == CASE rule \in {"combination"} -> 2 [] rule = "beta_conv" -> 0 [] OTHER -> 1
+\* rules that ignore whatever argument they are given
+ArgIgnored == {"", "sorry", "subproof", "verif_id0"}
+ArgFits(it) == it.rule \in ArgIgnored \/ it.ak = Sig(it.rule)
+\* the set of possible results (empty = the rule does not apply); arg is only looked at when its kind fits
 Apply(rule, arg, prems) ==
   CASE rule = "assume" /\ Len(prems) = 0 -> { Sq({arg}, arg) }
     [] rule = "implies_intr" /\ Len(prems) = 1 -> { Sq(prems[1].h \ {arg}, Imp(arg, prems[1].c)) }
     [] rule = "implies_elim" /\ Len(prems) = 2 ->
           IF IsImp(prems[1].c) /\ prems[1].c[2] = prems[2].c
           THEN { Sq(prems[1].h \cup prems[2].h, prems[1].c[3]) } ELSE {}
-    [] rule \in {"substitution", "verif_id0"} /\ Len(prems) = 1 -> { prems[1] }   \* empty instantiation / trusted identity macro
+    [] rule \in {"substitution", "subst_type", "verif_id0"} /\ Len(prems) = 1 -> { prems[1] }   \* empty instantiation / trusted identity macro
     [] rule = "theorem" /\ Len(prems) = 0 -> IF ThmName(arg) = "T1" THEN { T1 } ELSE {}
+    [] rule = "reflexive" /\ Len(prems) = 0 -> { Sq({}, Eq(arg, arg)) }
+    [] rule = "symmetric" /\ Len(prems) = 1 ->
+          IF IsEq(prems[1].c) THEN { Sq(prems[1].h, Eq(prems[1].c[3], prems[1].c[2])) } ELSE {}
+    [] rule = "transitive" /\ Len(prems) = 2 ->
+          IF IsEq(prems[1].c) /\ IsEq(prems[2].c) /\ prems[1].c[3] = prems[2].c[2]
+          THEN { Sq(prems[1].h \cup prems[2].h, Eq(prems[1].c[2], prems[2].c[3])) } ELSE {}
+    [] rule = "equal_intr" /\ Len(prems) = 2 ->
+          IF IsImp(prems[1].c) /\ IsImp(prems[2].c) /\ prems[1].c[2] = prems[2].c[3] /\ prems[1].c[3] = prems[2].c[2]
+          THEN { Sq(prems[1].h \cup prems[2].h, Eq(prems[1].c[2], prems[1].c[3])) } ELSE {}
+    [] rule = "equal_elim" /\ Len(prems) = 2 ->
+          IF IsEq(prems[1].c) /\ prems[1].c[2] = prems[2].c
+          THEN { Sq(prems[1].h \cup prems[2].h, prems[1].c[3]) } ELSE {}
     [] OTHER -> {}
 \* number of cited premises the rule consumes (theorem ignores its citation list)
 NPrev(it) == IF it.rule = "theorem" THEN 0 ELSE Len(it.prevs)
@@ -68,7 +106,7 @@ CheckItem(it, pos, V, nogaps) ==
        ELSE Res(TRUE, FALSE, V \cup {<<pos, it.th>>}, <<it.th>>)
   ELSE IF it.rule = "verif_gap1" THEN                                  \* macro whose expansion is one placeholder |- arg
        LET s == Sq({}, it.arg) IN
-       IF nogaps \/ (~IsNone(it.th) /\ ~CanProve(s, it.th)) THEN Res(FALSE, FALSE, V, <<>>)
+       IF nogaps \/ ~ArgFits(it) \/ (~IsNone(it.th) /\ ~CanProve(s, it.th)) THEN Res(FALSE, FALSE, V, <<>>)
        ELSE Res(TRUE, FALSE, V \cup {<<pos, IF IsNone(it.th) THEN s ELSE it.th>>}, <<s>>)
   ELSE IF it.rule = "subproof" THEN
        IF Len(it.sub) = 0 THEN Res(FALSE, FALSE, V, <<>>)
@@ -78,6 +116,8 @@ CheckItem(it, pos, V, nogaps) ==
                      good == IF IsNone(it.th) THEN outs ELSE { o \in outs : CanProve(o, it.th) } IN
                  IF good = {} THEN Res(FALSE, FALSE, V, <<>>)
                  ELSE Res(TRUE, FALSE, r.V \cup (IF IsNone(it.th) THEN { <<pos, o>> : o \in good } ELSE {<<pos, it.th>>}), r.gaps)
+  ELSE IF ~ArgFits(it) THEN Res(FALSE, FALSE, V, <<>>)                 \* an argument outside the signature justifies nothing
+  ELSE IF it.rule \in Unmodelled THEN Res(FALSE, NPrev(it) = PremCount(it.rule), V, <<>>)
   ELSE LET cand == { v[2] : v \in { v \in V : Visible(pos, v[1]) } } IN
        IF Cardinality(cand) > BigCap THEN Res(FALSE, TRUE, V, <<>>)
        ELSE LET outs == UNION { Apply(it.rule, it.arg, ps) : ps \in Tuples(cand, NPrev(it)) }
@@ -100,7 +140,7 @@ Placeholders(items) ==
   IF Len(items) = 0 THEN <<>>
   ELSE LET it == items[1]
            here == CASE it.rule = "sorry" -> <<it.th>>
-                     [] it.rule = "verif_gap1" -> << Sq({}, it.arg) >>
+                     [] it.rule = "verif_gap1" /\ ArgFits(it) -> << Sq({}, it.arg) >>
                      [] it.rule = "subproof" -> Placeholders(it.sub)
                      [] OTHER -> <<>> IN
        here \o Placeholders(Tail(items))
